@@ -479,6 +479,7 @@ func execute(s *engine.Script, o *engine.Outcome) {
 			tc.yields = schedYields()
 			schedCountOnly(false)
 			total += tc.yields
+			o.Probe("scheduled_call:" + tc.c.name)
 			if tc.panic {
 				o.Panics++
 				if o.PanicSample == "" {
